@@ -14,6 +14,7 @@ import (
 	"github.com/tychoish/fun/adt"
 	"github.com/tychoish/fun/dt"
 	"github.com/tychoish/fun/ers"
+	"verif/harness/rt"
 )
 
 // cell is the pooled / mapped object: identity (ID), how often a cleanup hook saw it, who made and who cleaned it.
@@ -106,8 +107,16 @@ func inEvs(ev []string, evs [][]string) bool {
 // constructed object is always allowed ("or constructs a default object"): sync.Pool may have dropped its content.
 func judgeTake(key string, s step, d *desc, ev []string, fresh bool) *verdict {
 	evOK := sameStrings(ev, s.Ev)
-	if !evOK && !inEvs(ev, s.Evs) && !fresh {
-		return bad(key+"/events", "constructor / cleanup-hook calls during the call: %v; the spec allows %v", ev, s.Evs)
+	if !evOK && !inEvs(ev, s.Evs) {
+		// the real pool constructed where the spec's candidates took a pooled value (or the other way round) - both
+		// are always allowed; what must still agree is whether the cleanup hook ran
+		ok := false
+		for _, e := range s.Evs {
+			ok = ok || sameStrings(shape(ev), shape(e))
+		}
+		if !ok {
+			return bad(key+"/events", "constructor / cleanup-hook calls during the call: %v; the spec allows %v", ev, s.Evs)
+		}
 	}
 	if d != nil {
 		if s.Pick != nil && *d == *s.Pick && evOK {
@@ -122,6 +131,17 @@ func judgeTake(key string, s step, d *desc, ev []string, fresh bool) *verdict {
 		return nil
 	}
 	return trunc
+}
+
+// shape of the observable calls of one pool take: constructions dropped, hook calls without the object's number
+func shape(ev []string) []string {
+	var out []string
+	for _, e := range ev {
+		if strings.HasPrefix(e, "hook:") {
+			out = append(out, "hook")
+		}
+	}
+	return out
 }
 
 func sortedCopy(a []string) []string {
@@ -481,4 +501,30 @@ func (x *poolSub) put(id int) desc {
 	delete(x.held, id)
 	x.p.Put(c)
 	return descOf(c)
+}
+
+// probe reports the "as observed" choices the documentation leaves open, for the generation heuristics of AdtSeq
+// (constant Prefer): what Map.Get does with the default it fetched when the key is present.
+func probe() {
+	x := &mapSub{}
+	x.m = &adt.Map[string, *cell]{}
+	x.config()
+	x.m.Store("a", &cell{ID: 1})
+	x.f.ev = nil
+	_ = x.m.Get("a")
+	choice := "drop"
+	for _, e := range x.f.ev {
+		if strings.HasPrefix(e, "hook:") {
+			choice = "putback"
+		}
+	}
+	// does Put(nil pointer) put the nil into the pool?
+	y := &poolSub{p: &adt.Pool[*cell]{}}
+	y.p.Put(nil)
+	y.p.SetConstructor(y.f.ctor("c1"))
+	nilput := "dropped"
+	if y.p.Get() == nil {
+		nilput = "pooled"
+	}
+	rt.Emit(map[string]any{"getpresent": choice, "nilput": nilput})
 }
